@@ -27,6 +27,8 @@
 #include <soundswallower/err.h>
 #include <soundswallower/ckd_alloc.h>
 #include <soundswallower/glist.h>
+#include <soundswallower/fe.h>
+#include <soundswallower/feat.h>
 
 enum { T_JSGF, T_FSG, T_DICT, T_CONFIG, T_ALIGN, T_ADDWORD, T_CMN, NT };
 static const char *tname[NT] = { "jsgf", "fsg", "dict", "config", "align_text", "add_word", "set_cmn" };
@@ -45,7 +47,7 @@ static const char *dict_tok[NT][48] = {
     { "#JSGF V1.0;", "grammar g;", "public", "<a>", "<b>", "=", ";", "|", "(", ")", "[", "]", "*", "+", "{tag}", "/2/", "/0.5/", "/1e-3/", "/0/", "/5/", "<NULL>", "<VOID>", "import <x.y>;", "//c\n", "/*", "*/", "\"q s\"", "go", "forward", "\xef\xbb\xbf", "<a.b>", "<g.a>", "{", "}", "\\", "/", "<>", "< >", NULL },
     { "FSG_BEGIN", "FSG_END", "NUM_STATES", "START_STATE", "FINAL_STATE", "TRANSITION", "N", "S", "F", "T", "#", "0", "1", "2", "0.5", "1.0", "1e-10", "go", "forward", "\n", " ", "\t", "-1", "2147483648", "4294967295", "99999999999", "0.0", "1.5", "nan", "inf", "1e400", "FSG_BEGIN x\n", NULL },
     { "go G OW\n", "a AH\n", "a(2) EY\n", "<sil> SIL\n", "##", ";;", "(", ")", "(2)", " ", "\t", "\n", "G", "OW", "QQ", "+NSN+", "SIL", "x(", "x()", "x(2", "(2)", "\r\n", NULL },
-    { "{", "}", "\"", ":", ",", "true", "false", "null", "samprate", "beam", "hmm", "loglevel", "INFO", "16000", "1e-48", "-1", "\\n", "\\u0041", "\\ud800", "\\", "[", "]", "1e999", "-0", "0x10", "nfft", "dict", "cmn", "lw", " ", "\n", "\"beam\": 1e-48", "beam: 1e-20", "remove_noise: yes", "compallsen", "yes", "no", "\\b", "\x08", "\\b\\b\\b\\b\\b\\b\\b\\b", "\x08\x08\x08\x08\x08\x08\x08\x08", "\\f\\f\\f\\f\\f\\f", "\\u0001\\u0001\\u0001\\u0001", NULL },
+    { "{", "}", "\"", ":", ",", "true", "false", "null", "samprate", "beam", "hmm", "loglevel", "INFO", "16000", "1e-48", "-1", "\\n", "\\u0041", "\\ud800", "\\", "[", "]", "1e999", "-0", "0x10", "nfft", "dict", "cmn", "lw", " ", "\n", "\"beam\": 1e-48", "beam: 1e-20", "remove_noise: yes", "compallsen", "yes", "no", "\\b", "\x08", "\\b\\b\\b\\b\\b\\b\\b\\b", "\x08\x08\x08\x08\x08\x08\x08\x08", "\\f\\f\\f\\f\\f\\f", "\\u0001\\u0001\\u0001\\u0001", "warp_params", "nfilt", "wlen", NULL },
     { "go", "forward", "ten", "meters", " ", "\t", "\n", "\r", "a", "the(2)", "<sil>", "[NOISE]", "(NULL)", "zzzzqq", "", NULL },
     { "go", "x", "x(2)", "G OW", "AH", "F AO R W ER D", " ", "  ", "\t", "QQ", "SIL", "+NSN+", "(", ")", "", "B D", NULL },
     { "40,3,-1", ",", "1e308", "-1e308", "nan", "inf", "0", "1", " ", "40", "3", ",,,,,,,,,,,,,,,,,,,,,,,,,,,,,,,,,,,,,", "-", "e", ".", "0x1p3", NULL },
@@ -79,6 +81,10 @@ static void setup(void)
     add_seed_file(T_CONFIG, vh_path("%s/model/en-us/feat_params.json", vh_repo), 1 << 20);
     add_seed_str(T_CONFIG, "{\"samprate\": 16000, \"beam\": 1e-48, \"hmm\": \"/repo/model/en-us\", \"loglevel\": \"FATAL\", \"remove_noise\": true, \"cmn\": \"live\"}");
     add_seed_str(T_CONFIG, "samprate: 8000, frate: 100\nbeam: 1e-20 loglevel: \"ERROR\" dict: \"a b\\n\\u00e9\"");
+    /* signal-processing parameters: an accepted configuration is handed to fe_init / feat_init and a little audio is run through */
+    add_seed_str(T_CONFIG, "{\"samprate\": 8000, \"nfilt\": 31, \"lowerf\": 200, \"upperf\": 3500, \"wlen\": 0.0256, \"frate\": 100, \"nfft\": 256, \"warp_type\": \"affine\", \"warp_params\": \"1.1 0.05\", \"transform\": \"dct\", \"lifter\": 22, \"feat\": \"1s_c_d_dd\", \"ceplen\": 13, \"svspec\": \"0-12/13-25/26-38\", \"cmn\": \"live\", \"cmninit\": \"40,3,-1\", \"dither\": true, \"seed\": 3}");
+    add_seed_str(T_CONFIG, "{\"warp_type\": \"piecewise_linear\", \"warp_params\": \"0.9 3000\", \"nfilt\": 40, \"upperf\": 6800, \"ncep\": 13, \"transform\": \"legacy\", \"remove_dc\": true, \"remove_noise\": false, \"unit_area\": false, \"round_filters\": true, \"doublebw\": true, \"alpha\": 0.97, \"input_endian\": \"big\"}");
+    add_seed_str(T_CONFIG, "warp_type: inverse_linear warp_params: \"1.05\" feat: s2_4x varnorm: yes cmn: batch logspec: yes smoothspec: no frate: 50 wlen: 0.04 nfft: 1024 transform: htk");
     add_seed_str(T_CONFIG, "{\"a\":{\"b\":[1,2,{\"c\":null}]},\"lw\":6.5,\"fsg\":\"x\\by\"}");
     /* every escape class, repeated, in values of real string parameters: a size/serialise disagreement on one class adds up */
     add_seed_str(T_CONFIG, "{\"hmm\": \"\\b\\b\\b\\b\\b\\b\\b\\b\\b\\b\\b\\b\", \"dict\": \"\\f\\f\\f\\f\\f\\f\\f\\f\\f\\f\", \"fsg\": \"\\n\\n\\n\\n\\n\\n\\n\\n\\n\\n\", \"jsgf\": \"\\r\\r\\r\\r\\r\\r\\r\\r\\r\\t\\t\\t\\t\\t\\t\\t\\t\\t\", \"mdef\": \"\\\"\\\"\\\"\\\"\\\"\\\"\\\"\\\"\\\\\\\\\\\\\\\\\\\\\\\\\\\\\", \"mean\": \"\\/\\/\\/\\/\\/\\/\\/\\/\", \"var\": \"\\u0001\\u0002\\u001f\\u007f\\u0001\\u0001\\u0001\\u0001\\u0001\\u0001\", \"tmat\": \"\\u00e9\\u20ac\\ud83d\\ude00\\u00e9\\u00e9\\u00e9\\u00e9\"}");
@@ -215,6 +221,37 @@ static void run_target(int t, const char *in, size_t n, vh_rng *r)
             if (js) { config_t *c2; char *copy = strdup(js); vh_ctx("config_parse_json(reparse)"); c2 = config_parse_json(NULL, copy); if (c2) config_free(c2); else vh_viol("config_serialize_not_reparsable", "config_serialize_json produced text that config_parse_json refuses: %.300s", copy); free(copy); vh_count("config_roundtrips", 1); }
             /* parse on top of an existing configuration as well */
             vh_ctx("config_parse_json(update)"); config_parse_json(cf, in);
+            /* the signal-processing objects built from it */
+            {
+                fe_t *fe; feat_t *fcb;
+                config_set_str(cf, "loglevel", "FATAL"); config_set_str(cf, "lda", NULL);
+                vh_ctx("fe_init"); fe = fe_init(cf);
+                if (fe) {
+                    int16 buf[1200], *pp = buf; size_t ns = 1200; int q, osz, room = 16; mfcc_t **cep;
+                    for (q = 0; q < 1200; ++q) buf[q] = (int16)vh_range(r, -8000, 8000);
+                    osz = fe_get_output_size(fe);
+                    if (osz > 0 && osz < 4096) {
+                        cep = (mfcc_t **)ckd_calloc_2d(room, (size_t)osz, sizeof(mfcc_t));
+                        vh_ctx("fe_process_int16"); fe_start(fe); fe_process_int16(fe, &pp, &ns, cep, room - 1); vh_ctx("fe_end"); fe_end(fe, cep, 1);
+                        ckd_free_2d(cep);
+                    }
+                    vh_count("front_ends_built_from_config", 1);
+                    vh_ctx("fe_free"); fe_free(fe);
+                }
+                vh_ctx("feat_init"); fcb = feat_init(cf);
+                if (fcb) {
+                    int nfr = 8, t2, k2, cl = feat_cepsize(fcb); mfcc_t **mfc, ***ft;
+                    if (cl > 0 && cl < 512) {
+                        mfc = (mfcc_t **)ckd_calloc_2d(8, (size_t)cl, sizeof(mfcc_t));
+                        for (t2 = 0; t2 < 8; ++t2) for (k2 = 0; k2 < cl; ++k2) mfc[t2][k2] = (mfcc_t)(0.25f * (float)((t2 * 5 + k2 * 3) % 13) - 1.0f);
+                        ft = feat_array_alloc(fcb, 8 + 8);
+                        vh_ctx("feat_s2mfc2feat_live"); feat_s2mfc2feat_live(fcb, mfc, &nfr, 1, 1, ft);
+                        feat_array_free(ft); ckd_free_2d(mfc);
+                    }
+                    vh_count("feature_modules_built_from_config", 1);
+                    vh_ctx("feat_free"); feat_free(fcb);
+                }
+            }
             config_free(cf);
         }
         break; }
